@@ -280,4 +280,7 @@ func rulesC20(e *Engine, r *Report) {
 		}
 		r.Min("R20.7", "Prune calls in the internal route", n, 1)
 	}
+	// ---------------------------------------------------------------- R20.8
+	r.Rule("R20.8", "cleaning cannot wedge the receiver: while a method of the stage holds one of the stage's mutexes it calls nothing on the same stage that acquires that mutex again - a read lock taken inside a read lock (sync.RWMutex) blocks for ever as soon as a writer (a file being received: toCache) is queued in between, and then every cache user hangs")
+	e.checkNoReentrantLocking(r, "R20.8", 15, "stage")
 }
